@@ -1,7 +1,575 @@
-//! C20: not implemented yet.
-use crate::util::Args;
+//! C20: value summaries (patronus-dse/src/value_summary.rs).  One case per line:
+//!
+//! (case ID (debug 0|1) (steps STEP...) (terms E...) (impl R...) (panicloc "file:line") (panicmsg ".."))
+//!
+//! STEP = (new E) | (bin OP i j) | (ite c t f) | (coalesce i) | (import i) | (guard E)
+//!        i, j, c, t, f index the summaries produced so far (a `guard` step produces none)
+//! R    = (s (GID TT VALUE)...)   entries of the summary the step produced, in stored order
+//!      | (g GID TT)              the guard a `guard` step produced
+//!      | (panic)                 the step panicked; nothing is executed after it
+//! TT   = truth table of the guard over the terminals listed in (terms ...): a string of 2^n
+//!        characters, character k = value of the guard when terminal i has bit i of k.
+//!        Observed through the cfg(patronus_verif) hooks `verif_entries`, `verif_eval`,
+//!        `verif_terminals` (and `verif_clone` to use one summary as an argument several times).
+use crate::dump::*;
+use crate::rng::Rng;
+use crate::sexp::{Sexp, build_expr, read_cases};
+use crate::util::*;
+use baa::BitVecValue;
+use patronus::expr::*;
+use patronus_dse::{GuardCtx, ValueSummary};
+use std::io::Write;
 
-pub fn run(_args: &Args) {
-    eprintln!("C20: harness module not implemented yet");
-    std::process::exit(2);
+#[derive(Clone, Debug)]
+enum Step {
+    New(ExprRef),
+    Bin(&'static str, usize, usize),
+    Ite(usize, usize, usize),
+    Coalesce(usize),
+    Import(usize),
+    Guard(ExprRef),
+}
+
+type BinFn = fn(&mut Context, ExprRef, ExprRef) -> ExprRef;
+
+fn op_and(ec: &mut Context, a: ExprRef, b: ExprRef) -> ExprRef {
+    ec.and(a, b)
+}
+fn op_or(ec: &mut Context, a: ExprRef, b: ExprRef) -> ExprRef {
+    ec.or(a, b)
+}
+fn op_xor(ec: &mut Context, a: ExprRef, b: ExprRef) -> ExprRef {
+    ec.xor(a, b)
+}
+fn op_add(ec: &mut Context, a: ExprRef, b: ExprRef) -> ExprRef {
+    ec.add(a, b)
+}
+fn op_sub(ec: &mut Context, a: ExprRef, b: ExprRef) -> ExprRef {
+    ec.sub(a, b)
+}
+fn op_eq(ec: &mut Context, a: ExprRef, b: ExprRef) -> ExprRef {
+    ec.equal(a, b)
+}
+fn op_ugt(ec: &mut Context, a: ExprRef, b: ExprRef) -> ExprRef {
+    ec.greater(a, b)
+}
+fn op_implies(ec: &mut Context, a: ExprRef, b: ExprRef) -> ExprRef {
+    ec.implies(a, b)
+}
+fn op_fst(_ec: &mut Context, a: ExprRef, _b: ExprRef) -> ExprRef {
+    a
+}
+fn op_snd(_ec: &mut Context, _a: ExprRef, b: ExprRef) -> ExprRef {
+    b
+}
+
+/// result width of an operator: 0 = same as operands, 1 = boolean, 2 = first, 3 = second
+const OPS: &[(&str, BinFn, u8)] = &[
+    ("and", op_and, 0),
+    ("or", op_or, 0),
+    ("xor", op_xor, 0),
+    ("add", op_add, 0),
+    ("sub", op_sub, 0),
+    ("eq", op_eq, 1),
+    ("ugt", op_ugt, 1),
+    ("implies", op_implies, 0),
+    ("fst", op_fst, 2),
+    ("snd", op_snd, 3),
+];
+
+fn find_op(name: &str) -> (&'static str, BinFn, u8) {
+    *OPS.iter().find(|o| o.0 == name).unwrap_or_else(|| panic!("unknown operator {name}"))
+}
+
+enum StepRes {
+    Sum(Vec<(usize, ExprRef)>),
+    Guard(usize),
+    Panic,
+}
+
+struct Runner {
+    ctx: Context,
+    gc: GuardCtx,
+    sums: Vec<ValueSummary<ExprRef>>,
+    /// width of the values of each summary (as tracked by the generator; 0 = unknown/mixed)
+    widths: Vec<WidthInt>,
+    /// summaries whose value trees got large: no longer used as operands of value-building steps
+    big: Vec<bool>,
+    steps: Vec<Step>,
+    results: Vec<StepRes>,
+    panic_loc: String,
+    panic_msg: String,
+    dead: bool,
+    /// set when a step registered more terminals than a truth table can cover: that step is
+    /// dropped from the case and the terminals known before it are used
+    final_terms: Option<Vec<ExprRef>>,
+}
+
+const TERM_LIMIT: usize = 10;
+
+impl Runner {
+    fn new(ctx: Context) -> Self {
+        Runner {
+            ctx,
+            gc: GuardCtx::default(),
+            sums: vec![],
+            widths: vec![],
+            big: vec![],
+            steps: vec![],
+            results: vec![],
+            panic_loc: String::new(),
+            panic_msg: String::new(),
+            dead: false,
+            final_terms: None,
+        }
+    }
+
+    fn value_width(&self, e: ExprRef) -> WidthInt {
+        e.get_bv_type(&self.ctx).unwrap_or(0)
+    }
+
+    /// run one step on the real implementation
+    fn exec(&mut self, step: Step) {
+        assert!(!self.dead);
+        let terms_before = self.gc.verif_terminals();
+        let ctx = &mut self.ctx;
+        let gc = &mut self.gc;
+        let sums = &self.sums;
+        let r: Result<(Option<ValueSummary<ExprRef>>, Option<usize>), String> = guarded(|| match &step {
+            Step::New(e) => (Some(ValueSummary::new(gc, *e)), None),
+            Step::Bin(op, i, j) => {
+                let f = find_op(op).1;
+                let a = sums[*i].verif_clone();
+                let b = sums[*j].verif_clone();
+                (Some(ValueSummary::apply_bin_op(ctx, gc, f, a, b)), None)
+            }
+            Step::Ite(c, t, f) => {
+                let c = sums[*c].verif_clone();
+                let t = sums[*t].verif_clone();
+                let f = sums[*f].verif_clone();
+                (Some(ValueSummary::apply_ite(ctx, gc, c, t, f)), None)
+            }
+            Step::Coalesce(i) => {
+                let mut s = sums[*i].verif_clone();
+                s.coalesce(gc);
+                (Some(s), None)
+            }
+            Step::Import(i) => {
+                let mut s = sums[*i].verif_clone();
+                s.import_into_guard(ctx, gc);
+                (Some(s), None)
+            }
+            Step::Guard(e) => (None, Some(gc.expr_to_guard(ctx, *e))),
+        });
+        if self.gc.verif_terminals().len() > TERM_LIMIT {
+            self.final_terms = Some(terms_before);
+            self.dead = true;
+            return;
+        }
+        self.steps.push(step);
+        match r {
+            Err(msg) => {
+                self.panic_msg = msg;
+                self.panic_loc = last_panic_loc();
+                self.results.push(StepRes::Panic);
+                self.dead = true;
+            }
+            Ok((Some(s), _)) => {
+                let entries = s.verif_entries();
+                let w = entries.first().map(|e| self.value_width(e.1)).unwrap_or(0);
+                let same = entries.iter().all(|e| self.value_width(e.1) == w);
+                let mut big = entries.len() > 24;
+                for (_, v) in entries.iter() {
+                    if tree_size(&self.ctx, *v, 120) > 120 {
+                        big = true;
+                    }
+                }
+                self.results.push(StepRes::Sum(entries));
+                self.sums.push(s);
+                self.widths.push(if same { w } else { 0 });
+                self.big.push(big);
+            }
+            Ok((None, Some(g))) => self.results.push(StepRes::Guard(g)),
+            Ok((None, None)) => unreachable!(),
+        }
+    }
+
+    fn dump(&self, id: &str, debug: bool, stats: &mut Stats) -> String {
+        let mut terms = self.final_terms.clone().unwrap_or_else(|| self.gc.verif_terminals());
+        terms.sort();
+        let n = terms.len();
+        let mut s = format!("(case {id} (debug {}) (steps", if debug { 1 } else { 0 });
+        for st in self.steps.iter() {
+            s.push(' ');
+            match st {
+                Step::New(e) => s.push_str(&format!("(new {})", dump_expr(&self.ctx, *e))),
+                Step::Bin(op, i, j) => s.push_str(&format!("(bin {op} {i} {j})")),
+                Step::Ite(c, t, f) => s.push_str(&format!("(ite {c} {t} {f})")),
+                Step::Coalesce(i) => s.push_str(&format!("(coalesce {i})")),
+                Step::Import(i) => s.push_str(&format!("(import {i})")),
+                Step::Guard(e) => s.push_str(&format!("(guard {})", dump_expr(&self.ctx, *e))),
+            }
+        }
+        s.push_str(") (terms");
+        for t in terms.iter() {
+            s.push(' ');
+            s.push_str(&dump_expr(&self.ctx, *t));
+        }
+        s.push_str(") (impl");
+        assert!(n <= 12, "too many terminals for a truth table");
+        let mut cache: std::collections::HashMap<usize, String> = Default::default();
+        let mut tt = |g: usize| -> String {
+            if let Some(t) = cache.get(&g) {
+                return t.clone();
+            }
+            let mut t = String::with_capacity(1 << n);
+            let mut val: Vec<(ExprRef, bool)> = terms.iter().map(|e| (*e, false)).collect();
+            for k in 0..(1usize << n) {
+                for i in 0..n {
+                    val[i].1 = (k >> i) & 1 == 1;
+                }
+                t.push(if self.gc.verif_eval(g, &val) { '1' } else { '0' });
+            }
+            cache.insert(g, t.clone());
+            t
+        };
+        for r in self.results.iter() {
+            s.push(' ');
+            match r {
+                StepRes::Panic => s.push_str("(panic)"),
+                StepRes::Guard(g) => s.push_str(&format!("(g {} {})", g, tt(*g))),
+                StepRes::Sum(es) => {
+                    s.push_str("(s");
+                    // harness-side statistics only (the verdict is the driver's): how many valuations
+                    // select exactly one entry
+                    let tts: Vec<String> = es.iter().map(|e| tt(e.0)).collect();
+                    let mut bad = false;
+                    for k in 0..(1usize << n) {
+                        let c = tts.iter().filter(|t| t.as_bytes()[k] == b'1').count();
+                        if c != 1 {
+                            bad = true;
+                        }
+                    }
+                    if bad {
+                        stats.inc("impl_summaries_not_a_partition");
+                    }
+                    stats.bump("entries_per_summary", &format!("{}", es.len().min(33)));
+                    for (k, (g, v)) in es.iter().enumerate() {
+                        s.push_str(&format!(" ({} {} {})", g, tts[k], dump_expr(&self.ctx, *v)));
+                    }
+                    s.push(')');
+                }
+            }
+        }
+        s.push(')');
+        if self.dead && self.final_terms.is_none() {
+            s.push_str(&format!(" (panicloc {}) (panicmsg {})", quote(&self.panic_loc), quote(&self.panic_msg)));
+        }
+        s.push(')');
+        s
+    }
+}
+
+// ------------------------------------------------------------------------------------ generator
+
+struct Gen {
+    terminals: Vec<ExprRef>,
+    vals8: Vec<ExprRef>,
+}
+
+fn gen_bool(ctx: &mut Context, rng: &mut Rng, g: &Gen, depth: u32, stats: &mut Stats) -> ExprRef {
+    if depth == 0 || rng.chance(1, 6) {
+        return if rng.chance(1, 12) {
+            stats.bump("guard_nodes", "lit");
+            if rng.chance(1, 2) { ctx.get_true() } else { ctx.get_false() }
+        } else {
+            stats.bump("guard_nodes", "terminal");
+            *rng.pick(&g.terminals)
+        };
+    }
+    let d = depth - 1;
+    match rng.below(5) {
+        0 => {
+            stats.bump("guard_nodes", "not");
+            let a = gen_bool(ctx, rng, g, d, stats);
+            ctx.not(a)
+        }
+        k => {
+            let a = gen_bool(ctx, rng, g, d, stats);
+            let b = gen_bool(ctx, rng, g, d, stats);
+            match k {
+                1 => {
+                    stats.bump("guard_nodes", "and");
+                    ctx.and(a, b)
+                }
+                2 => {
+                    stats.bump("guard_nodes", "or");
+                    ctx.or(a, b)
+                }
+                3 => {
+                    stats.bump("guard_nodes", "xor");
+                    ctx.xor(a, b)
+                }
+                _ => {
+                    stats.bump("guard_nodes", "implies");
+                    ctx.implies(a, b)
+                }
+            }
+        }
+    }
+}
+
+/// a terminal that is not a plain 1-bit symbol
+fn odd_terminal(ctx: &mut Context, rng: &mut Rng, bools: &[ExprRef], stats: &mut Stats) -> ExprRef {
+    let a8 = ctx.bv_symbol("a8", 8);
+    let b8 = ctx.bv_symbol("b8", 8);
+    let x = *rng.pick(bools);
+    let y = *rng.pick(bools);
+    let z = *rng.pick(bools);
+    match rng.below(8) {
+        0 => {
+            stats.bump("odd_terminal", "ugt8");
+            ctx.greater(a8, b8)
+        }
+        1 => {
+            stats.bump("odd_terminal", "eq8");
+            ctx.equal(a8, b8)
+        }
+        2 => {
+            stats.bump("odd_terminal", "slice8");
+            ctx.slice(a8, 3, 3)
+        }
+        3 => {
+            stats.bump("odd_terminal", "ite1");
+            ctx.ite(x, y, z)
+        }
+        4 => {
+            stats.bump("odd_terminal", "eq1");
+            ctx.equal(x, y)
+        }
+        5 => {
+            stats.bump("odd_terminal", "ugt1");
+            ctx.greater(x, y)
+        }
+        6 => {
+            stats.bump("odd_terminal", "add1");
+            ctx.add(x, y)
+        }
+        _ => {
+            stats.bump("odd_terminal", "ite1-of-ugt8");
+            let c = ctx.greater(a8, b8);
+            ctx.ite(x, c, z)
+        }
+    }
+}
+
+fn gen_and_run(rng: &mut Rng, stats: &mut Stats, args: &Args) -> Runner {
+    let mut ctx = Context::default();
+    let max_terms = args.get_u64("max-terms", 6);
+    let nterm = 1 + rng.below(max_terms) as usize;
+    let mut terminals: Vec<ExprRef> = (0..nterm).map(|i| ctx.bv_symbol(&format!("t{i}"), 1)).collect();
+    let odd_den = args.get_u64("odd-den", 10);
+    if odd_den > 0 && rng.chance(1, odd_den) {
+        let bools = terminals.clone();
+        let o = odd_terminal(&mut ctx, rng, &bools, stats);
+        let k = rng.below(nterm as u64) as usize;
+        terminals[k] = o;
+        stats.inc("cases_with_odd_terminal");
+    }
+    let nvals = 2 + rng.below(3) as usize;
+    let mut vals8: Vec<ExprRef> = (0..nvals).map(|i| ctx.bv_symbol(&format!("v{i}"), 8)).collect();
+    let lit = ctx.bv_lit(&BitVecValue::from_u64(rng.below(256), 8));
+    vals8.push(lit);
+    let g = Gen { terminals, vals8 };
+    stats.bump("terminals_declared", &format!("{nterm}"));
+    let mut r = Runner::new(ctx);
+    let nsteps = 4 + rng.below(args.get_u64("max-steps", 16));
+    let mut executed = 0;
+    while executed < nsteps && !r.dead {
+        let step = pick_step(&mut r, rng, &g, stats, args);
+        let name = match &step {
+            Step::New(_) => "new",
+            Step::Bin(..) => "bin",
+            Step::Ite(..) => "ite",
+            Step::Coalesce(_) => "coalesce",
+            Step::Import(_) => "import",
+            Step::Guard(_) => "guard",
+        };
+        stats.bump("steps", name);
+        if let Step::Bin(op, _, _) = &step {
+            stats.bump("bin_ops", op);
+        }
+        r.exec(step);
+        executed += 1;
+    }
+    r
+}
+
+fn pick_step(r: &mut Runner, rng: &mut Rng, g: &Gen, stats: &mut Stats, args: &Args) -> Step {
+    let n = r.sums.len();
+    let bools: Vec<usize> = (0..n).filter(|i| r.widths[*i] == 1).collect();
+    let usable: Vec<usize> = (0..n).filter(|i| !r.big[*i] && r.widths[*i] != 0).collect();
+    // opening: a few conditions and a few values, so that later steps have something to combine
+    if n < 2 || (n < 5 && rng.chance(1, 2)) {
+        return if n % 2 == 0 {
+            let d = 1 + rng.below(4) as u32;
+            let e = gen_bool(&mut r.ctx, rng, g, d, stats);
+            Step::New(e)
+        } else {
+            Step::New(*rng.pick(&g.vals8))
+        };
+    }
+    // prefer operands with many entries
+    let pick_rich = |rng: &mut Rng, cands: &[usize], r: &Runner| -> usize {
+        let mut best = *rng.pick(cands);
+        for _ in 0..2 {
+            let c = *rng.pick(cands);
+            if r.sums[c].len() > r.sums[best].len() && rng.chance(2, 3) {
+                best = c;
+            }
+        }
+        best
+    };
+    for _attempt in 0..50 {
+        match rng.below(20) {
+            0..=1 => {
+                return if rng.chance(1, 2) {
+                    let d = 1 + rng.below(4) as u32;
+                    let e = gen_bool(&mut r.ctx, rng, g, d, stats);
+                    Step::New(e)
+                } else {
+                    Step::New(*rng.pick(&g.vals8))
+                };
+            }
+            2..=8 => {
+                // ite: condition a boolean summary, branches of equal width
+                if bools.is_empty() || usable.is_empty() {
+                    continue;
+                }
+                let c = if rng.chance(1, 60) { *rng.pick(&usable) } else { pick_rich(rng, &bools, r) };
+                let t = pick_rich(rng, &usable, r);
+                let cands: Vec<usize> = usable.iter().copied().filter(|f| r.widths[*f] == r.widths[t]).collect();
+                let f = pick_rich(rng, &cands, r);
+                if r.sums[t].len() + r.sums[f].len() > 40 {
+                    continue;
+                }
+                return Step::Ite(c, t, f);
+            }
+            9..=13 => {
+                if usable.is_empty() {
+                    continue;
+                }
+                let a = pick_rich(rng, &usable, r);
+                let (name, _, kind) = *rng.pick(OPS);
+                let b = if kind >= 2 {
+                    pick_rich(rng, &usable, r)
+                } else {
+                    let cands: Vec<usize> = usable.iter().copied().filter(|f| r.widths[*f] == r.widths[a]).collect();
+                    pick_rich(rng, &cands, r)
+                };
+                if name == "implies" && r.widths[a] != 1 {
+                    continue;
+                }
+                // arithmetic/comparison of booleans gives boolean values that are not connectives:
+                // legal, but as conditions they hit the debug assertion of expr_to_guard; keep them rare
+                if r.widths[a] == 1 && matches!(name, "eq" | "ugt" | "add" | "sub") && !rng.chance(1, 8) {
+                    continue;
+                }
+                if r.sums[a].len() * r.sums[b].len() > 64 {
+                    continue;
+                }
+                return Step::Bin(name, a, b);
+            }
+            14..=16 => {
+                let all: Vec<usize> = (0..n).collect();
+                return Step::Coalesce(pick_rich(rng, &all, r));
+            }
+            17..=18 => {
+                if bools.is_empty() {
+                    if rng.chance(1, 30) {
+                        return Step::Import(rng.below(n as u64) as usize);
+                    }
+                    continue;
+                }
+                if rng.chance(1, 60) {
+                    return Step::Import(rng.below(n as u64) as usize);
+                }
+                return Step::Import(pick_rich(rng, &bools, r));
+            }
+            _ => {
+                let d = rng.below(5) as u32;
+                let e = if rng.chance(1, 40) { *rng.pick(&g.vals8) } else { gen_bool(&mut r.ctx, rng, g, d, stats) };
+                return Step::Guard(e);
+            }
+        }
+    }
+    Step::New(*rng.pick(&g.vals8))
+}
+
+// ------------------------------------------------------------------------------------ replay
+
+fn replay_case(c: &Sexp) -> (Runner, String) {
+    let id = c.list()[1].atom().to_string();
+    let mut r = Runner::new(Context::default());
+    for st in c.field("steps").unwrap_or(&[]) {
+        if r.dead {
+            break;
+        }
+        let l = st.list();
+        let ix = |k: usize| l[k].num() as usize;
+        let step = match l[0].atom() {
+            "new" => Step::New(build_expr(&mut r.ctx, &l[1])),
+            "guard" => Step::Guard(build_expr(&mut r.ctx, &l[1])),
+            "bin" => Step::Bin(find_op(l[1].atom()).0, ix(2), ix(3)),
+            "ite" => Step::Ite(ix(1), ix(2), ix(3)),
+            "coalesce" => Step::Coalesce(ix(1)),
+            "import" => Step::Import(ix(1)),
+            other => panic!("unknown step {other}"),
+        };
+        r.exec(step);
+    }
+    (r, id)
+}
+
+pub fn run(args: &Args) {
+    if std::env::var("C20_DEBUG").is_ok() {
+        // print panics (the shared hook only records them)
+        std::panic::set_hook(Box::new(|info| eprintln!("panic: {info}")));
+    }
+    let mut rng = Rng::new(args.seed);
+    let mut out = std::io::BufWriter::new(std::fs::File::create(&args.out).expect("out file"));
+    let mut stats = Stats::default();
+    let mut distinct = std::collections::HashSet::new();
+    let debug = cfg!(debug_assertions);
+    stats.bump("profile", if debug { "debug-assertions" } else { "release" });
+    let mut emit = |line: String, stats: &mut Stats, r: &Runner| {
+        distinct.insert(line[line.find("(steps").unwrap_or(0)..].to_string());
+        stats.sample(&line, 3);
+        stats.inc("cases");
+        if r.final_terms.is_some() {
+            stats.inc("cases_cut_at_terminal_limit");
+        } else if r.dead {
+            stats.inc("impl_panics");
+            stats.bump("panic_loc", &r.panic_loc);
+        }
+        stats.bump("terminals_in_bdd", &format!("{}", r.final_terms.as_ref().map(|t| t.len()).unwrap_or_else(|| r.gc.verif_terminals().len())));
+        stats.bump("steps_per_case", &format!("{}", r.steps.len()));
+        writeln!(out, "{line}").unwrap();
+    };
+    if let Some(path) = args.get("cases-in") {
+        for c in read_cases(path).iter() {
+            let (r, id) = replay_case(c);
+            let line = r.dump(&id, debug, &mut stats);
+            emit(line, &mut stats, &r);
+        }
+    }
+    for id in 0..args.count {
+        let mut rr = rng.fork();
+        let r = gen_and_run(&mut rr, &mut stats, args);
+        let line = r.dump(&format!("{id}"), debug, &mut stats);
+        emit(line, &mut stats, &r);
+    }
+    drop(emit);
+    stats.add("distinct_cases", distinct.len() as u64);
+    stats.write(&args.out);
 }
